@@ -7,6 +7,7 @@ open Sdc Sdc.Multikey
   `defs <d>…`            d = m|u|n followed by 1|0 (index_none_values)   -> reset, `ok`
   `set <o> <r>…`         r = E | N | o<k> | s<w>:<e>,… | l<k>,…          -> `ok <dump>`
   `add|rm|upd <o>`, `clear`, `addm|rmm|updm <o>…`                        -> `ok <dump>` | `err <class> <dump>`
+  a leading `.` word (`. add 3`): answer without the dump
   `get <i> <k>` -> `none` | `o,…`     `has <i> <k>` -> `true|false`     `one <i> <k> <0|1>` -> `ok <o>|ok none|err <class>`
   dump = `O:<objs sorted> I<i>:<k>=<o,…>|… R:<o>=<i>.<k>,…/…` over the universe of keys / objects mentioned so far
 -/
@@ -81,18 +82,23 @@ def errName : Err → String
   | .keyError => "KeyError"
   | .valueError => "ValueError"
 
-def answer (s : DState) (e : Option Err) : String :=
-  match e with
-  | none => "ok " ++ dump s
-  | some e => "err " ++ errName e ++ " " ++ dump s
+def answer (quiet : Bool) (s : DState) (e : Option Err) : String :=
+  let res := match e with
+    | none => "ok"
+    | some e => "err " ++ errName e
+  if quiet then res else res ++ " " ++ dump s
 
-def doOp (s : DState) (op : Op) (mention : List Nat) : DState × String :=
+def doOp (quiet : Bool) (s : DState) (op : Op) (mention : List Nat) : DState × String :=
   let r := step s.defs s.w op
   let s' := { s with w := r.1, objs := mention.foldl (fun acc o => insertSorted o acc) s.objs }
-  (s', answer s' r.2)
+  (s', answer quiet s' r.2)
 
+/-- a leading `.` word makes a mutating op answer without the dump -/
 def stepLine (s : DState) (line : String) : DState × String :=
-  match Io.words line with
+  let ws := Io.words line
+  let quiet := ws.head? == some "."
+  let doOp := doOp quiet
+  match (if quiet then ws.tail else ws) with
   | "defs" :: ds =>
     match ds.mapM parseDef with
     | some defs => ({ defs := defs, w := World.init, keys := [noneKey], objs := [] }, "ok")
